@@ -37,6 +37,8 @@ fn main() {
         "C13" => ex(props::c13::run),
         "C14" => ex(props::c14::run),
         "C15" => ex(props::c15::run),
+        "replay" => vh::replay::replay(&args[2]),
+        "selftest" => vh::selftest::run(),
         "C07-child" => props::c07::child(&args[2..]),
         "C10-child" => props::c10::child_lazy(&args[2..]),
         _ => {
